@@ -730,16 +730,33 @@ def unmodelled_sites(repo):
     return [s for s in inventory(repo) if not s.construction and s.ident not in ALLOWED]
 
 
+def _is_noise(s):
+    """a docstring / bare string, or a call that only reports: logger.debug(...), logging.info(...), warnings.warn(...)"""
+    if isinstance(s, ast.Expr) and isinstance(s.value, ast.Constant):
+        return True
+    if isinstance(s, ast.Expr) and isinstance(s.value, ast.Call):
+        from fixtures.sharedwrites import dotted
+        d = dotted(s.value.func) or ''
+        return d.split('.')[0] in ('logger', 'logging', 'log', '_logger', 'warnings') and \
+            d.split('.')[-1] in ('debug', 'info', 'warning', 'warn', 'error', 'exception', 'critical', 'log')
+    return False
+
+
+def _strip_noise(body):
+    return [s for s in body if not _is_noise(s)]
+
+
 def _own_statements(fn):
-    """the statements of a function in source order, compound statements contributing their header; nested defs skipped"""
+    """the statements of a function in source order, compound statements contributing their header; nested defs, docstrings
+    and logging calls skipped"""
     out = []
 
     def block(stmts):
         for s in stmts:
             if isinstance(s, (ast.FunctionDef, ast.AsyncFunctionDef, ast.ClassDef)):
                 continue
-            if isinstance(s, ast.Expr) and isinstance(s.value, ast.Constant):
-                continue                    # docstring
+            if _is_noise(s):
+                continue                    # docstring, log message
             out.append(s)
             for field in ('body', 'orelse', 'finalbody'):
                 b = getattr(s, field, None)
@@ -980,7 +997,7 @@ def item_session_parts(repo, out):
     sets_first = False
     if borrowed is not None:
         name, w = borrowed
-        body = _strip_doc(w.body)
+        body = _strip_noise(w.body)
         ad = None
         for s in body:
             if isinstance(s, ast.Assign) and len(s.targets) == 1 and isinstance(s.targets[0], ast.Name) \
@@ -988,7 +1005,7 @@ def item_session_parts(repo, out):
                 ad = s.targets[0].id
         loops = [s for s in body if isinstance(s, ast.While)]
         if ad is not None and len(loops) == 1:
-            lb = _strip_doc(loops[0].body)
+            lb = _strip_noise(loops[0].body)
             sends = [n for n in ast.walk(loops[0]) if isinstance(n, ast.Call) and isinstance(n.func, ast.Name)
                      and n.func.id == '_request']
             sets = [n for n in ast.walk(req) if isinstance(n, ast.Assign)
